@@ -85,6 +85,13 @@ func (p Parser) Parse(src io.Reader) (f File) {
 		}
 
 		if p.isStrict {
+			if n := nullTagWithText(&doc, map[*yaml.Node]struct{}{}); n != nil {
+				f.Error = ParseError{
+					Err:  fmt.Errorf("cannot decode `%s` as a %s", n.Value, describeTag(nullTag)),
+					Line: n.Line,
+				}
+				return f
+			}
 			g, f.Error = parseGroups(&doc, p.schema, 0, 0, cr.lines)
 			if f.Error.Err != nil {
 				return f
@@ -549,6 +556,32 @@ func aliasCycle(node *yaml.Node, visiting map[*yaml.Node]bool) *yaml.Node {
 		}
 	}
 	visiting[node] = false
+	return nil
+}
+
+// nullTagWithText returns the first scalar explicitly tagged !!null that yaml does not resolve to a null
+// (`!!null x`). Such a node passes every isTag() check but Prometheus fails to decode it.
+func nullTagWithText(node *yaml.Node, seen map[*yaml.Node]struct{}) *yaml.Node {
+	if _, ok := seen[node]; ok {
+		return nil
+	}
+	seen[node] = struct{}{}
+	if node.Kind == yaml.ScalarNode && node.ShortTag() == nullTag {
+		var v any
+		if err := node.Decode(&v); err != nil || v != nil {
+			return node
+		}
+	}
+	if node.Alias != nil {
+		if n := nullTagWithText(node.Alias, seen); n != nil {
+			return n
+		}
+	}
+	for _, child := range node.Content {
+		if n := nullTagWithText(child, seen); n != nil {
+			return n
+		}
+	}
 	return nil
 }
 
